@@ -4,6 +4,7 @@ import copy
 from hypothesis import strategies as st
 
 from vlib import gen, ops
+from vlib import campaign
 from vlib.runner import Result, SubCheck, Violation
 
 PROPERTY = "C08"
@@ -124,7 +125,11 @@ def evaluate(plan, ctx):
     return Result(nontrivial, sorted(ev))
 
 
-SUBCHECKS = [SubCheck("history", strategy, evaluate, quick=3000, thorough=50000)]
+SUBCHECKS = [
+    SubCheck("history", strategy, evaluate, quick=3000, thorough=50000),
+    # thorough tier only: coverage-guided campaign (atheris) over the same generator and oracle
+    SubCheck("atheris", strategy, evaluate, 0, 0, external=campaign.atheris_external("C08", "history")),
+]
 KNOWN = {}
 
 MANIFEST = {
